@@ -232,6 +232,19 @@ func (r *Run) arch386() {
 			r.variant(v[i+1:], "build tag "+v[:i], "variant_"+v[:i])
 		}
 	}
+	// environment variables the library's own (non-test) source consults by name, found by ./check (none
+	// on the pinned tree): the whole enumeration is repeated with each of them set to each value of a
+	// small alphabet - what the library computes is a function of its arguments, not of the process
+	// environment
+	if self := os.Getenv("VERIF_SELF_BIN"); self != "" {
+		names := strings.Fields(os.Getenv("VERIF_ENV_NAMES"))
+		r.Set("environment_variables_consulted_by_the_library", len(names))
+		for _, name := range names {
+			for i, value := range []string{"1", "0", "true", "false", "60001", "54321", "x", ""} {
+				r.variant(self, fmt.Sprintf("environment variable %s=%q", name, value), fmt.Sprintf("env_%s_%d", name, i), name+"="+value)
+			}
+		}
+	}
 	bin := os.Getenv("VERIF_386_BIN")
 	if bin == "" {
 		return
@@ -249,11 +262,11 @@ func (r *Run) arch386() {
 }
 
 // variant runs another build of this harness (same tier) as a child and imports its findings.
-func (r *Run) variant(bin, what, key string) {
+func (r *Run) variant(bin, what, key string, extraEnv ...string) {
 	out := filepath.Join(os.Getenv("VERIF_WORK"), key+"."+r.ID+".json")
 	os.Remove(out)
 	cmd := exec.Command(bin, "--tier", r.Tier)
-	cmd.Env = append(os.Environ(), "VERIF_IS_386=1", "VERIF_386_OUT="+out)
+	cmd.Env = append(append(os.Environ(), "VERIF_IS_386=1", "VERIF_386_OUT="+out), extraEnv...)
 	var stderr bytes.Buffer
 	cmd.Stderr = &stderr
 	start := time.Now()
@@ -274,7 +287,11 @@ func (r *Run) variant(bin, what, key string) {
 	}
 	for i := range res.Violations {
 		if res.Violations[i].What != "" {
-			res.Violations[i].What = "[" + what + " build of the library] " + res.Violations[i].What
+			if len(extraEnv) > 0 {
+				res.Violations[i].What = "[with " + what + "] " + res.Violations[i].What
+			} else {
+				res.Violations[i].What = "[" + what + " build of the library] " + res.Violations[i].What
+			}
 		}
 	}
 	r.Import(res.Violations)
